@@ -206,6 +206,10 @@ func (e *Engine) MakeReplayer(verif string, timeoutSec int) {
 		if panicKinds[o.Kind] {
 			return inputs, panicked, log
 		}
+		if panicked && (o.Kind == "pre" || o.Kind == "mem" || o.Kind == "frame" || o.Kind == "callpre") {
+			// the callee's precondition fails and the real code panics on the witness
+			return inputs, true, log
+		}
 		if o.Kind == "post" && !panicked && strings.Contains(out, "DGV-DONE") {
 			obs := map[string]uint64{}
 			for _, m := range resultRe.FindAllStringSubmatch(out, -1) {
